@@ -25,6 +25,7 @@ func runC17(p *eng.Prog, r *eng.Report, tier string) {
 	c := &cx{p, r, tier}
 	c17QuoteChain(c, "C17.10")
 	c17QuoteStartedHasDecoder(c, "C17.12")
+	c17CloseDirectiveEndsTheSpan(c, "C17.13")
 	c17TokenLengthWithinData(c, "C17.11")
 	split := map[string]bool{"styling.Decoder.scan": true, "styling.Decoder.scanSpan": true, "styling.Decoder.scanPre": true}
 	nret := 0
@@ -676,4 +677,38 @@ func rootLocalOrRecv(f *eng.Fn, e ast.Expr) string {
 		e = sel.X
 	}
 	return f.Norm(e, nil)
+}
+
+// c17CloseDirectiveEndsTheSpan (C17.13): the look-ahead that opens a span
+// accepts, as its end, the next matching directive on the line that is not
+// preceded by a space. The close arm of scanSpan - the directive equals the
+// top of the span stack - therefore ends the span whenever it is reached:
+// every path from its edge returns a token (the directive, or the text in
+// front of it); none goes back into the scan. A close arm that skips a
+// directive for a reason the look-ahead does not know ("it lies inside an
+// inline pre span") leaves a span open that was promised an end on its line.
+func c17CloseDirectiveEndsTheSpan(c *cx, id string) {
+	f := c.fn(id, "styling", "(*Decoder).scanSpan")
+	if f == nil {
+		return
+	}
+	g := f.Graph()
+	n := 0
+	for _, ce := range g.EdgesMatching("eq(rangeval(p0),recv.spanStack[*])") {
+		n++
+		from := g.EdgeTarget(ce.E)
+		// the condition block itself: reachable again only through the loop
+		back := eng.Point{B: ce.E.B, I: 0}
+		okr := !g.Reachable(from, back, nil, nil)
+		c.r.Check(id, f, "close arm of scanSpan", "O: from the edge on which the directive equals the top of the span stack every path returns; the scan is not resumed", f.Pos(), okr, "the close arm can go back into the scan loop: a directive that the look-ahead took for the end of the span is skipped")
+		for _, rs := range returnsFrom(f, from, nil) {
+			rp, _ := g.Where(rs)
+			adv := ""
+			if len(rs.Results) == 3 {
+				adv = f.Norm(rs.Results[0], &rp)
+			}
+			c.r.Check(id, f, "close arm of scanSpan [a token is returned]", "K: the close arm consumes input (the directive or the text before it)", rs.Pos(), adv != "0" && adv != "", "the close arm asks for more data / returns no token")
+		}
+	}
+	c.r.Floor(id, "close arms in scanSpan", n, 1)
 }
